@@ -1,12 +1,16 @@
 import VelaVerif.Spec.Mem
+import VelaVerif.Lemmas.IntervalMap
 /-!
 # C03 — no NPU operation consumes memory that was not defined for it
 
 Run-time verdict: `Mem.execTagged` on each emitted stream. Theorems: the interval map used by the
-tagged-memory machine implements the per-byte map it stands for.
+tagged-memory machine implements the per-byte map it stands for (`IMap.get`), `readPieces` /
+`writePieces` are the byte-range check / update of the per-byte memory `Memory.get`, and the machine
+reports nothing exactly when every byte read by every step held the expected tag at the moment the
+step executed (`execTagged_sound`).  Helper lemmas: `Lemmas/IntervalMap.lean`, `Lemmas/Footprint.lean`.
 -/
 namespace VelaVerif.Props.C03
-open VelaVerif.Mem
+open VelaVerif.Mem VelaVerif.Footprint VelaVerif.Decode VelaVerif.Isa
 
 /-- reading an empty range never fails -/
 theorem firstMismatch_empty (m : IMap) (lo hi tid : Nat) (d : Int) (h : hi ≤ lo) :
@@ -20,5 +24,195 @@ theorem firstMismatch_nil (lo hi tid : Nat) (d : Int) (h : lo < hi) :
 
 example : IMap.firstMismatch (IMap.write (IMap.write [] 0 100 1 0) 40 60 2 5) 0 100 1 0 = some (40, some (2, 5)) := by decide
 example : IMap.firstMismatch (IMap.write (IMap.write [] 0 100 1 0) 40 60 2 5) 60 100 1 0 = none := by decide
+
+/-! ## Part A: the interval map refines the per-byte tag map -/
+
+/-- 1a. the empty map satisfies the representation invariant -/
+theorem inv_nil : IMap.Inv [] := IMap.inv_nil
+
+/-- 1b. `write` preserves the representation invariant (segments non-empty, sorted, disjoint) -/
+theorem write_inv (m : IMap) (lo hi tid : Nat) (d : Int) (hm : IMap.Inv m) :
+    IMap.Inv (IMap.write m lo hi tid d) := IMap.write_inv hm lo hi tid d
+
+/-- the invariant really constrains: an overlapping map violates it, the maps `write` builds do not -/
+example : ¬ IMap.Inv [⟨0, 10, 1, 0⟩, ⟨5, 20, 2, 0⟩] := by decide
+example : ¬ IMap.Inv [⟨3, 3, 1, 0⟩] := by decide
+example : IMap.Inv (IMap.write (IMap.write (IMap.write [] 0 100 1 0) 40 60 2 5) 50 200 3 (-7)) := by decide
+example : IMap.write (IMap.write (IMap.write [] 0 100 1 0) 40 60 2 5) 50 200 3 (-7) =
+    [⟨0, 40, 1, 0⟩, ⟨40, 50, 2, 5⟩, ⟨50, 200, 3, -7⟩] := by decide
+
+/-- 2. `write` is exactly the byte-range update of the per-byte view -/
+theorem imap_refines_bytes (m : IMap) (lo hi tid : Nat) (d : Int) (b : Nat) (hm : IMap.Inv m) :
+    IMap.get (IMap.write m lo hi tid d) b = if lo ≤ b ∧ b < hi then some (tid, d) else IMap.get m b :=
+  IMap.imap_refines_bytes hm lo hi tid d b
+
+example : IMap.get (IMap.write (IMap.write [] 0 100 1 0) 40 60 2 5) 45 = some (2, 5) := by decide
+example : IMap.get (IMap.write (IMap.write [] 0 100 1 0) 40 60 2 5) 60 = some (1, 0) := by decide
+example : IMap.get (IMap.write (IMap.write [] 0 100 1 0) 40 60 2 5) 100 = none := by decide
+
+/-- 3. the range check accepts exactly when every byte of the range carries the expected tag -/
+theorem firstMismatch_none_iff (m : IMap) (lo hi tid : Nat) (d : Int) (hm : IMap.Inv m) :
+    IMap.firstMismatch m lo hi tid d = none ↔ ∀ b, lo ≤ b → b < hi → IMap.get m b = some (tid, d) :=
+  IMap.firstMismatch_none_iff hm lo hi tid d
+
+/-- two adjacent segments with the same tag are accepted as one range; a gap is not -/
+example : IMap.firstMismatch [⟨0, 40, 1, 0⟩, ⟨40, 100, 1, 0⟩] 10 90 1 0 = none := by decide
+example : IMap.firstMismatch [⟨0, 40, 1, 0⟩, ⟨41, 100, 1, 0⟩] 10 90 1 0 = some (40, none) := by decide
+
+/-- 4. a reported mismatch is a byte of the range, the reported content is what the map holds there,
+    it differs from the expected tag, and it is the first such byte of the range -/
+theorem firstMismatch_some_sound (m : IMap) (lo hi tid : Nat) (d : Int) (b : Nat) (found : Option (Nat × Int))
+    (hm : IMap.Inv m) (h : IMap.firstMismatch m lo hi tid d = some (b, found)) :
+    lo ≤ b ∧ b < hi ∧ IMap.get m b = found ∧ found ≠ some (tid, d) ∧
+      ∀ b', lo ≤ b' → b' < b → IMap.get m b' = some (tid, d) :=
+  IMap.firstMismatch_some_sound hm h
+
+example : IMap.Inv [⟨0, 40, 1, 0⟩, ⟨40, 60, 2, 5⟩, ⟨60, 100, 1, 0⟩] ∧
+    IMap.firstMismatch [⟨0, 40, 1, 0⟩, ⟨40, 60, 2, 5⟩, ⟨60, 100, 1, 0⟩] 0 100 1 0 = some (40, some (2, 5)) := by decide
+
+/-! ## Lift to the region-indexed memory -/
+
+/-- a memory built from invariant-satisfying maps satisfies the memory-wide invariant -/
+theorem memory_inv_of_forall (m : Memory) (h : ∀ p ∈ m, IMap.Inv p.2) : m.Inv := Memory.inv_of_forall h
+
+/-- 5a. `writePieces` preserves the memory-wide invariant -/
+theorem writePieces_inv (m : Memory) (region tid : Nat) (ps : List Piece) (shift : Int) (h : m.Inv) :
+    (writePieces m region tid ps shift).Inv := Mem.writePieces_inv h region tid ps shift
+
+/-- 5b. exact per-byte meaning of `writePieces`: in the written region the *last* piece that contains a
+    byte determines its tag (later writes win), every other byte of the memory is unchanged -/
+theorem writePieces_get (m : Memory) (region tid : Nat) (ps : List Piece) (shift : Int) (r' b : Nat) (h : m.Inv) :
+    (writePieces m region tid ps shift).get r' b =
+      if r' = region then
+        match lastCover ps b with
+        | some q => some (tid, q.delta + shift)
+        | none => m.get region b
+      else m.get r' b := Mem.get_writePieces h region tid ps shift r' b
+
+/-- 5c. other regions are unchanged -/
+theorem writePieces_other_region (m : Memory) (region tid : Nat) (ps : List Piece) (shift : Int) (r' b : Nat)
+    (h : m.Inv) (hr : r' ≠ region) : (writePieces m region tid ps shift).get r' b = m.get r' b :=
+  Mem.get_writePieces_other_region h region tid ps shift hr b
+
+/-- 5d. bytes outside every written piece are unchanged -/
+theorem writePieces_outside (m : Memory) (region tid : Nat) (ps : List Piece) (shift : Int) (r' b : Nat)
+    (h : m.Inv) (hb : ∀ p ∈ ps, ¬ p.covers b) : (writePieces m region tid ps shift).get r' b = m.get r' b :=
+  Mem.get_writePieces_outside h region tid ps shift r' hb
+
+/-- 5e. every byte of every written piece reads back the written tensor id with the delta of a piece
+    that contains it -/
+theorem writePieces_written (m : Memory) (region tid : Nat) (ps : List Piece) (shift : Int) (p : Piece) (b : Nat)
+    (h : m.Inv) (hp : p ∈ ps) (hb : p.covers b) :
+    ∃ q ∈ ps, q.covers b ∧ (writePieces m region tid ps shift).get region b = some (tid, q.delta + shift) :=
+  Mem.get_writePieces_written h region tid ps shift hp hb
+
+/-- 5f. … which is the tag of `p` itself whenever the pieces containing the byte agree on `delta`
+    (in particular for pairwise disjoint pieces) -/
+theorem writePieces_written_eq (m : Memory) (region tid : Nat) (ps : List Piece) (shift : Int) (p : Piece) (b : Nat)
+    (h : m.Inv) (hp : p ∈ ps) (hb : p.covers b) (hcons : ∀ q ∈ ps, q.covers b → q.delta = p.delta) :
+    (writePieces m region tid ps shift).get region b = some (tid, p.delta + shift) :=
+  Mem.get_writePieces_written_eq h region tid ps shift hp hb hcons
+
+/-- 5g. `readPieces` accepts exactly when every byte of every piece holds `(tid, piece.delta + shift)` -/
+theorem readPieces_none_iff (m : Memory) (region tid : Nat) (ps : List Piece) (shift : Int) (h : m.Inv) :
+    readPieces m region tid ps shift = none ↔
+      ∀ p ∈ ps, ∀ b, p.covers b → m.get region b = some (tid, p.delta + shift) :=
+  Mem.readPieces_none_iff h region tid ps shift
+
+/-- 5h. a reported read error corresponds to a real offending byte -/
+theorem readPieces_some_sound (m : Memory) (region tid : Nat) (ps : List Piece) (shift : Int) (msg : String)
+    (h : m.Inv) (hr : readPieces m region tid ps shift = some msg) :
+    ∃ p ∈ ps, ∃ b, p.covers b ∧ m.get region b ≠ some (tid, p.delta + shift) :=
+  Mem.readPieces_some_sound h region tid ps shift hr
+
+/-- concrete memory for the non-vacuity examples: region 1 holds tensor 7 in bytes [0, 100) -/
+def exInit : Memory := [(1, IMap.write [] 0 100 7 0)]
+
+example : exInit.Inv := Memory.inv_of_forall (by decide)
+example : (writePieces exInit 2 9 [⟨0, 16, 4⟩, ⟨8, 16, 6⟩] 1).get 2 10 = some (9, 7) := by decide
+example : (writePieces exInit 2 9 [⟨0, 16, 4⟩, ⟨8, 16, 6⟩] 1).get 2 3 = some (9, 5) := by decide
+example : (writePieces exInit 2 9 [⟨0, 16, 4⟩, ⟨8, 16, 6⟩] 1).get 1 3 = some (7, 0) := by decide
+example : readPieces exInit 1 7 [⟨0, 16, -3⟩, ⟨50, 50, -3⟩] 3 = none := by decide
+example : (readPieces exInit 1 7 [⟨0, 16, 0⟩, ⟨50, 51, 0⟩] 0).isSome = true := by decide
+
+/-! ## 6. the tagged-memory machine -/
+
+/-- one-step soundness, block operation: no error ⇒ every byte of the IFM / IFM2 footprints, of every
+    weight and scale range and of the LUT held the expected tag in the memory the step ran in
+    (data living in the constants region is not tracked and is excluded) -/
+theorem stepBlock_sound (e : Env) (m : Memory) (idx : Nat) (b : BlockOp) (i : OpInfo) (h : m.Inv)
+    (herr : (stepBlock e m idx b i).1 = []) :
+    (b.ifm.region ≠ e.constRegion → FmHolds m b.ifm i.ifm) ∧
+    (∀ f, b.ifm2 = some f → f.region ≠ e.constRegion → FmHolds m f i.ifm2) ∧
+    (∀ rg src, (rg, src) ∈ b.weights.zip i.wsrc → rg.region ≠ e.constRegion →
+      ConstHolds m rg.region rg.addr rg.len src) ∧
+    (∀ rg src, (rg, src) ∈ b.scales.zip i.ssrc → rg.region ≠ e.constRegion →
+      ConstHolds m rg.region rg.addr rg.len src) ∧
+    (∀ li, lutIndex b.activation = some li →
+      ConstHolds m REGION_SHRAM (e.lutBase + li * 256) i.lutLen i.lutsrc) :=
+  Mem.stepBlock_sound e h idx b i herr
+
+/-- one-step soundness, DMA -/
+theorem stepDma_sound (e : Env) (m : Memory) (idx : Nat) (d : DmaOp) (i : DmaInfo) (h : m.Inv)
+    (herr : (stepDma e m idx d i).1 = []) (hr : d.src.region ≠ e.constRegion) :
+    ∀ byte, d.src.addr ≤ byte → byte < d.src.addr + d.src.len →
+      m.get d.src.region byte = some (i.srcTid, i.srcDelta) :=
+  Mem.stepDma_sound e h idx d i herr hr
+
+/-- a step reports nothing exactly when its kind matches its side information and all its reads are
+    satisfied (`StepOk`); the memory it leaves does not depend on the verdict and keeps the invariant -/
+theorem step_sound (e : Env) (m : Memory) (idx : Nat) (op : DecOp) (info : Info) (h : m.Inv) :
+    ((step e m idx op info).1 = [] ↔ StepOk e m op info) ∧
+      (step e m idx op info).2 = nextMem m op info ∧ (nextMem m op info).Inv :=
+  ⟨step_fst_nil_iff e h idx op info, step_snd e m idx op info, nextMem_inv h op info⟩
+
+/-- 6. `execTagged` reports nothing **iff** the run is fine: each step's kind matches and all its reads are
+    satisfied in the memory produced by the steps before it (`RunOk`, defined by recursion over the
+    operation list with `StepOk` / `nextMem`).  Operations beyond the shorter of the two lists are not
+    executed (`List.zip`); the handler rejects streams whose side information has a different length. -/
+theorem execTagged_sound (e : Env) (init : Memory) (ops : List DecOp) (infos : List Info) (h : init.Inv) :
+    execTagged e init ops infos = [] ↔ RunOk e init (ops.zip infos) :=
+  execTagged_nil_iff e h ops infos
+
+/-- 6'. the same as a statement about every step `k`: at the moment step `k` executes (memory `memAt … k`,
+    the result of the writes of steps `0 … k-1`) every byte it reads holds the expected tag -/
+theorem execTagged_sound_trace (e : Env) (init : Memory) (ops : List DecOp) (infos : List Info) (h : init.Inv)
+    (hexec : execTagged e init ops infos = []) :
+    ∀ k (hk : k < (ops.zip infos).length),
+      StepOk e (memAt init (ops.zip infos) k) (ops.zip infos)[k].1 (ops.zip infos)[k].2 :=
+  (RunOk_iff_forall e init (ops.zip infos)).mp ((execTagged_nil_iff e h ops infos).mp hexec)
+
+/-- element-level reading of a satisfied feature-map read (uses `Footprint.fmPieces_covers`): every byte of
+    every addressed element holds tensor `tid` at the element's canonical offset.  For NHCWB16 the box
+    origin must be brick aligned in depth. -/
+theorem fmHolds_elements (m : Memory) (fm : FM) (fi : FmInfo) (h : FmHolds m fm fi)
+    (hal : fm.nhcwb16 = true → fi.c0 % 16 = 0) (y x c k : Nat)
+    (hy : y < fm.height) (hx : x < fm.width) (hc : c < fm.depth) (hk : k < fm.elemBytes) :
+    m.get fm.region (fmAddr fm y x c + k) =
+      some (fi.tid, (canon fm (y + fi.y0) (x + fi.x0) (c + fi.c0) : Int) - (fmAddr fm y x c : Int) + fi.shift) := by
+  obtain ⟨p, hp, hcov, hd⟩ := fmPieces_covers fm fi.y0 fi.x0 fi.c0 y x c k hy hx hc hk
+  rw [h p hp _ hcov, hd hal]
+
+/-! ### non-vacuity: a two-operation program that runs clean, and one that does not -/
+
+def exEnv : Env := { extents := [(0, 1000), (1, 1000), (2, 1000)], shramBytes := 16384, lutBase := 14336 }
+def exFm : FM :=
+  { region := 1, base := [0, 0, 0, 0], height0 := 4, height1 := 4, width0 := 4, strideX := 8, strideY := 32,
+    strideC := 0, height := 2, width := 4, depth := 8, elemBytes := 1, signed := true, nhcwb16 := false, zeroPoint := 0 }
+def exBlock : BlockOp := { (default : BlockOp) with ifm := exFm, ofm := { exFm with region := 2 } }
+def exInfo : OpInfo :=
+  { ifm := ⟨7, 0, 0, 0, 0⟩, ifm2 := default, ofm := ⟨8, 0, 0, 0, 0⟩, wsrc := [], ssrc := [], lutsrc := -1, lutLen := 0 }
+
+/-- block op reads tensor 7 from region 1 and writes tensor 8 to region 2; the DMA then reads tensor 8 -/
+example : execTagged exEnv exInit [.block exBlock, .dma ⟨⟨2, 0, 64⟩, ⟨1, 200, 64⟩, 0⟩]
+    [.block exInfo, .dma ⟨8, 0, 8, -200⟩] = [] := by decide
+/-- the same block op expecting the rows one further down (a wrapped rolling buffer) is rejected -/
+example : (execTagged exEnv exInit [.block exBlock] [.block { exInfo with ifm := ⟨7, 1, 0, 0, 0⟩ }]).length = 1 := by
+  decide
+/-- the DMA executed *before* its producer is rejected -/
+example : (execTagged exEnv exInit [.dma ⟨⟨2, 0, 64⟩, ⟨1, 200, 64⟩, 0⟩, .block exBlock]
+    [.dma ⟨8, 0, 8, -200⟩, .block exInfo]).length = 1 := by decide
+example : (stepBlock exEnv exInit 0 exBlock exInfo).1 = [] ∧ exBlock.ifm.region ≠ exEnv.constRegion := by decide
+example : (stepDma exEnv exInit 0 ⟨⟨1, 16, 32⟩, ⟨2, 0, 32⟩, 0⟩ ⟨7, 0, 9, 0⟩).1 = [] := by decide
 
 end VelaVerif.Props.C03
